@@ -2019,6 +2019,12 @@ theorem stampLink_length (ls : List (FLink F)) (idx : Nat) (weak ld ccb : Bool) 
     (stampLink ls idx weak ld ccb cct).length = ls.length := by
   unfold stampLink; exact List.length_mapIdx
 
+/-- `sync_conn_timeout` writes the configured timeout into the link's copy and nothing else. -/
+theorem ev_syncOne (hc : Bool) (T : Nat) (l : FLink F) :
+    Evolves hc (some T) l { l with connTimeoutMs := T } :=
+  ⟨Or.inr rfl, rfl, rfl, rfl, rfl, rfl, Iff.rfl,
+   fun _ _ h => ⟨h.window, h.log, h.queue, h.inFlight, h.connected⟩⟩
+
 /-- A verdict stamp touches neither the accounting core nor the queue nor the reconnection state. -/
 theorem ev_stampOne (hc : Bool) (cto : Option Nat) (idx : Nat) (weak ld ccb : Bool) (cct : Nat) (j : Nat)
     (l : FLink F) : Evolves hc cto l (stampOne idx weak ld ccb cct j l) := by
@@ -2030,9 +2036,10 @@ theorem ev_stampOne (hc : Bool) (cto : Option Nat) (idx : Nat) (weak ld ccb : Bo
 /-- What one event does to link `j`. -/
 inductive LinkStep (s : Sys F) (e : Ev) (j : Nat) (l l' : FLink F) : Prop
   /-- anything that is not a tear-down / attempt / REG3; the timeout copy may be refreshed by a
-  client event (selection pass) only -/
+  client event (selection pass) or by `sync_conn_timeout` (`Ev.syncTimeout`) only -/
   | evolves (cto : Option Nat)
-      (hcto : cto = none ∨ ∃ now pkt, e = .client now pkt ∧ cto = some s.cfg.connTimeoutMs)
+      (hcto : cto = none ∨
+        (((∃ now pkt, e = .client now pkt) ∨ e = .syncTimeout) ∧ cto = some s.cfg.connTimeoutMs))
       (h : Evolves s.reg.hasConnected cto l l')
   | sendFail (now : Nat) (pkt : Sys.Bytes) (he : e = .client now pkt)
       (h : Torn (some s.cfg.connTimeoutMs) l l')
@@ -2067,7 +2074,7 @@ theorem step_link (s : Sys F) (e : Ev) :
     obtain ⟨l', hl', hs⟩ := h1.get j l hl
     refine ⟨l', hl', ?_⟩
     rcases hs with hs | ⟨hs, hlt⟩
-    · exact .evolves _ (Or.inr ⟨now, pkt, rfl, rfl⟩) hs
+    · exact .evolves _ (Or.inr ⟨.inl ⟨now, pkt, rfl⟩, rfl⟩) hs
     · exact .sendFail now pkt rfl hs hlt
   | uplink now cid data =>
     obtain ⟨h1, h2, h3, h4, h5⟩ := uplink_links s cid data now
@@ -2101,6 +2108,12 @@ theorem step_link (s : Sys F) (e : Ev) :
     refine ⟨stampOne idx weak ld ccb cct j l, ?_, .evolves none (Or.inl rfl) (ev_stampOne _ _ _ _ _ _ _ _ _)⟩
     show (stampLink s.links idx weak ld ccb cct)[j]? = _
     rw [stampLink_get, hl]; rfl
+  | syncTimeout =>
+    refine ⟨fun j l hl => ?_, by show (s.links.map _).length = _; exact List.length_map _, fun h => h⟩
+    refine ⟨{ l with connTimeoutMs := s.cfg.connTimeoutMs }, ?_,
+      .evolves (some s.cfg.connTimeoutMs) (Or.inr ⟨.inr rfl, rfl⟩) (ev_syncOne _ _ l)⟩
+    show (s.links.map fun l => ({ l with connTimeoutMs := s.cfg.connTimeoutMs } : FLink F))[j]? = _
+    rw [List.getElem?_map, hl]; rfl
 
 /-! ## 12. Extras: REG2 on the wire, accounting of live links, REG_ERR recognition -/
 
